@@ -178,6 +178,18 @@ func (fv *FuncVC) intBin(op token.Token, x, y Term, pos token.Pos, ylit *int64, 
 		r = fv.uninterpBit("and", x, y)
 	case token.OR:
 		r = fv.uninterpBit("or", x, y)
+		// c | x == c + x when x fits below the lowest set bit of the constant c
+		for _, pr := range [][2]interface{}{{ylit, x}, {xlit, y}} {
+			lit, _ := pr[0].(*int64)
+			other := pr[1].(Term)
+			if lit != nil && *lit > 0 {
+				k := 0
+				for (*lit>>uint(k))&1 == 0 {
+					k++
+				}
+				fv.assert(smtImp(smtAnd(app("<=", "0", other.S), app("<", other.S, pow2(k))), app("=", r.S, app("+", other.S, fmt.Sprint(*lit)))))
+			}
+		}
 	case token.XOR:
 		r = fv.uninterpBit("xor", x, y)
 	case token.AND_NOT:
